@@ -2,6 +2,7 @@
 //! from /repo's working tree, writes model inputs + implementation outputs + statistics + oracle findings.
 mod archive;
 mod chunking;
+mod cli;
 mod clone;
 mod http;
 mod pb;
@@ -62,6 +63,10 @@ fn main() {
         "tryinit" => archive::suite_tryinit(&out, seed, thorough, &mut st),
         "compress" => archive::suite_compress(&out, seed, thorough, &mut st),
         "http" => http::suite_http(&out, seed, thorough, &mut st),
+        "clirt" => cli::suite_clirt(&out, seed, thorough, &mut st),
+        "cliclone" => cli::suite_cliclone(&out, seed, thorough, &mut st),
+        "clirefuse" => cli::suite_clirefuse(&out, seed, thorough, &mut st),
+        "clitrace" => cli::suite_clitrace(&out, seed, thorough, &mut st),
         "ioread" => http::suite_ioread(&out, seed, thorough, &mut st),
         "clone" => clone::suite_clone(&out, seed, thorough, &mut st),
         _ => {
